@@ -190,6 +190,18 @@ CHECKS = {
     note=TRUSTED + "Histories are exhaustive to the stated depth; the results objects are seeded samples. External binaries are replaced "
          "by hit tables. A schema change is materialised by shifting the saved schema field(s). Sandwiches: a strictness-only change "
          "may reuse unchanged; sideload arguments are free; HmmerResults.refilter trim band."),
+ "C14": dict(
+    text=("NrpsModules.tla states the documented NRPS/PKS module rules (partition in order, layout WellLaid incl. trans-AT KR and "
+          "double-transporter exceptions, completeness and trans-AT as must/may bands, flag definitions, no needless split, the merge "
+          "relation, reload identity) plus a look-ahead state machine; TLC checks on every enumerated domain string and gene pair that "
+          "the state machine's own output satisfies the rules (with wrong-model negative controls), and then decides in "
+          "NrpsModules_Trace the projected result of build_modules_for_cds, Module.from_json(to_json()) and combine_modules (strand "
+          "combinations) for every such string/pair (all strings <= 3 over 25 labels + pairs quick; <= 4 over 25, <= 5 over 14, <= 7 "
+          "over the 5 double-transporter labels, pairs <= 3 x <= 3 thorough) plus seeded random genes of 6-14 domains over all profile "
+          "names."),
+    design="6/C14", technique="TLA+ spec (NrpsModules.tla) + TLC model checking (generator, satisfiability, negative controls) + TLC trace validation of real calls",
+    note=TRUSTED + "Domain classes are taken from the code's classify(); exhaustive only up to the stated lengths/alphabets; "
+         "generate_domains (needs hmmscan), monomer naming and the secmet aSModule GenBank round trip are outside."),
 }
 CHECKS_END = None
 NOT_BUILT = "not built yet (work in progress, see DESIGN.md section 10 build order)"
